@@ -475,7 +475,8 @@ def rule_bits(ctx):
         w = Walker(F.model, k, consts={pp: p, mp: 1 << p}, effects=F.effects, summaries=sm, no_inline=frozenset(F.units()))
         w.run()
         ctx.analysed_funcs.add(k.key)
-        stores = [e for e in w.events if e.kind == "store" and e.arr.name == reg]
+        stores = [e for e in w.events if e.kind == "store" and e.arr.name == reg
+                  and not (isinstance(e.value, Num) and e.old is not None and e.value.lin == Lin.term(e.old))]      # identity stores are no updates
         hcalls = [e for e in w.events if e.kind == "call" and e.name == "fasthash64"]
         ncalls = [e for e in w.events if e.kind == "call" and e.name == nlzf.name]
         for e in stores:
